@@ -41,7 +41,7 @@ func usesCmp(kind string) bool {
 
 // keyTextDom is the value table of non-bidirectional maps: values whose text equals keys.
 func keyTextDom[K comparable](d *Dom[K]) *Dom[string] {
-	vd := strDom(1, "nat")
+	vd := strDom(1, "nat", 0)
 	vd.Tab = nil
 	for _, k := range d.Tab {
 		vd.Tab = append(vd.Tab, fmt.Sprint(k))
@@ -59,7 +59,7 @@ func makeKV[K comparable](cfg Cfg, d *Dom[K], count bool) Subject {
 		if n < 2 {
 			n = 2
 		}
-		vd = strDom(n, cfg.VCmp)
+		vd = strDom(n, cfg.VCmp, int(cfg.MapSeed>>8%uint64(len(specialStrings))))
 	} else {
 		vd = keyTextDom(d)
 	}
@@ -89,7 +89,7 @@ func makeSubject(cfg Cfg, count bool) Subject {
 			return makeKV(cfg, d, count)
 		}
 	case "string":
-		d := strDom(n, cfg.Cmp)
+		d := strDom(n, cfg.Cmp, int(cfg.MapSeed%uint64(len(specialStrings))))
 		switch fam {
 		case "list":
 			return newListSubj(cfg, d)
